@@ -26,8 +26,10 @@ import calendar
 import datetime
 import json
 import math
+import sys as _sysmod
 import warnings
 
+import c03_special
 import rules
 from common import Err
 
@@ -50,6 +52,11 @@ TRUSTED = ["harness/rules.py: compiler from rule-system terms to real Variable s
 ASSUMPTIONS = ["value equalities are claimed for same-family unit pairs (day<month<year, weekday<week) and a start "
                "aligned to the definition unit (ADD) or to the request unit (DIVIDE); cross-family cells and unaligned "
                "starts are compared model-vs-code only",
+               "oracle-only streams (harness/c03_special.py; the Coq side receives CSkip): float variables with +/-inf, "
+               "NaN and -0.0 defaults and inputs, request periods given as text, and Period.get_subperiods on tens of "
+               "thousands of pieces, each compared with the property's statement computed from plain calculate calls "
+               "on a second simulation and the datetime calendar; one engine case per run sums a day variable over "
+               "more than 32767 days and does go through the Coq correspondence",
                "generated values stay below 2^22 in absolute value (exact in int32 and float32); DIVIDE dependencies "
                "read inputs that are multiples of the denominator"]
 
@@ -305,6 +312,9 @@ def expectations(case):
 
 
 def run_impl(case):
+    if case.get("special"):
+        _SKIP.add(_key(case))
+        return {"main": "skip", "expect": [], "special": c03_special.run(case, _sysmod.modules[__name__])}
     main = rules.run_case(case)
     if main == "skip":
         _SKIP.add(_key(case))
@@ -319,13 +329,21 @@ def coq_case(case):
 def obs_for_coq(case, obs):
     if isinstance(obs, Err):
         return obs
-    return obs["main"]
+    main = obs["main"]
+    if isinstance(main, list):
+        # a quotient that is not the integer array over the count carries floats: the model
+        # gets a marker it cannot reproduce (the oracle reports the request itself)
+        main = [["divide-mismatch", o[1], o[2]] if isinstance(o[0], list) and o[0] and o[0][0] == "divide-mismatch" else o
+                for o in main]
+    return main
 
 
 def oracle(case, obs):
     if isinstance(obs, Err):
         return f"driver: the harness could not run the case: {obs.msg}"
     main, expect = obs["main"], obs["expect"]
+    if case.get("special"):
+        return c03_special.oracle(case, obs["special"])
     if main == "skip":
         return None
     for k, (r, (a, depth, _cache), ex) in enumerate(zip(case["requests"], main, expect)):
@@ -358,7 +376,11 @@ def oracle(case, obs):
 
 
 def nontrivial(case, obs):
-    if isinstance(obs, Err) or obs["main"] == "skip":
+    if isinstance(obs, Err):
+        return False
+    if case.get("special"):
+        return c03_special.claimed(case, obs["special"])
+    if obs["main"] == "skip":
         return False
     return any(ex is not None and ex[0] in ("error", "value", "quot") for ex in obs["expect"])
 
@@ -366,6 +388,8 @@ def nontrivial(case, obs):
 def classify(case, obs):
     if isinstance(obs, Err):
         return "driver-error"
+    if case.get("special"):
+        return f"oracle-only {case['special']} def={case['du']} {case.get('mode', '')}"
     if obs["main"] == "skip":
         return "skipped-inexact"
     du = case["sys"]["vars"][1]["unit"]
@@ -651,6 +675,17 @@ def generate(rng, tier):
         if div_cells:
             case, _ = make_case(rng, ru, div_cells)
             cases.append(case)
+    # oracle-only streams (the Coq side gets CSkip) and the scale cases
+    me = _sysmod.modules[__name__]
+    nf, ns, nb, nscale = {"quick": (70, 50, 4, 1), "escalated": (250, 150, 8, 2), "thorough": (800, 400, 14, 4)}[tier]
+    for _ in range(nf):
+        cases.append(c03_special.gen_float(rng, me))
+    for _ in range(ns):
+        cases.append(c03_special.gen_string(rng, me))
+    for _ in range(nb):
+        cases.append(c03_special.gen_subperiods(rng, me))
+    for _ in range(nscale):
+        cases.append(c03_special.scale_case(rng, me))
     return cases
 
 
@@ -662,6 +697,8 @@ def wrapper_q(case, r):
 
 def neighbours(case, rng):
     """cases near a mismatching one: the same cells on other start dates"""
+    if case.get("special") or len(case["sys"]["vars"]) < 3:
+        return []
     du = case["sys"]["vars"][1]["unit"]
     out = []
     cells = []
